@@ -23,6 +23,17 @@ Theorem C08_every_arm_means_the_reference : forall a, In a fake_arms ->
 Proof. intros a Hin. apply canonical_means_reference.
   pose proof C08_every_arm_wf_and_canonical as H. rewrite forallb_forall in H. specialize (H a Hin). apply andb_prop in H. tauto. Qed.
 Print Assumptions C08_every_arm_means_the_reference.
+(* arms that take the same options declare the same item names (statics, consts, fns): a caller's own item mentioned in when / assign /
+   returns is shadowed by the same names, hence means the same thing, in every arm of an option set *)
+Theorem C08_arms_of_an_option_set_declare_the_same_items :
+  List.length fake_arm_items = List.length fake_arms /\
+  forall x y, In x fake_arm_items -> In y fake_arm_items -> fst x = fst y -> snd x = snd y.
+Proof. split; [vm_compute; reflexivity|]. apply items_uniform_spec. vm_compute. reflexivity. Qed.
+Print Assumptions C08_arms_of_an_option_set_declare_the_same_items.
+Theorem C08_a_private_item_is_caught :
+  items_uniform [((true, true, true, true), ["FAKE_COUNTER"; "fake"]); ((true, true, true, true), ["EXPECTED"; "FAKE_COUNTER"; "fake"])] = false.
+Proof. vm_compute. reflexivity. Qed.
+Print Assumptions C08_a_private_item_is_caught.
 (* all option combinations the macro offers are distinct matchers (no arm shadows another) *)
 Definition key (a:arm) := (q_unsafe (m_quals a), q_abi (m_quals a), m_unit a, k_when a, k_assign a, k_returns a, k_times a).
 Theorem C08_slips_are_caught :
